@@ -21,7 +21,7 @@ RULE = ("files from the SpikeGLX writer model: {3A,3B1,3B2,NP2.1,NP2.4,NPultra,n
 ASSUMPTIONS = ["pairs of two index arrays are not generated (NumPy pairs them pointwise, the reader gathers orthogonally; the property "
                "names neither)", "values agree to float32 rounding of 'float32(raw) x factor': |got-exp| <= 2^-22 |exp|; sync exact",
                "mtscomp (dependency) is observed only through the reader"]
-REQUIRED = {"getitem_calls": 300, "read_calls": 50, "values_compared": 300, "geometry_rows_checked": 20, "cbin_files": 3, "negstep_slices": 10, "lf_band_files": 10, "inconsistent_metadata_files": 10, "uuid_named_with_sibling_band": 10}
+REQUIRED = {"getitem_calls": 300, "read_calls": 50, "values_compared": 300, "geometry_rows_checked": 20, "cbin_files": 3, "negstep_slices": 10, "lf_band_files": 10, "inconsistent_metadata_files": 10, "uuid_named_with_sibling_band": 10, "shank_files_read": 20}
 CASE_TIMEOUT = 60.0
 RTOL = 2.0 ** -22
 
@@ -237,6 +237,35 @@ def run_case(case):
     except Exception as e:
         res.exception("read:exception", e, f"{label0} repeat read")
     sr.close()
+    # -------- per-shank files of a four-shank probe (as the library's own converter writes them: the whole probe's site table plus the shank the file
+    #          holds), for site selections that leave some shanks unused: column i of what the reader returns is the electrode its geometry names
+    if kind == "NP2.4" and case.get("_i", 0) % 2 == 0:
+        try:
+            allsites = G.draw_sites(rng, "NP2.4", 384, "random")
+            keep_sh = [(1, 3), (0, 2), (2,), (1, 2, 3), (0, 3)][int(rng.integers(0, 5))]
+            sub = allsites[np.isin(allsites[:, 0], keep_sh)]
+            par = G.make(rng, kind="NP2.4", sites=sub, encoding=enc, ns=3, raw=np.zeros((3, len(sub) + 1), np.int16), aimax=aimax, maxint=maxint)
+            for s_ in keep_sh:
+                idx = np.flatnonzero(par.shank == s_)
+                rawc = rng.integers(-2000, 2000, (40, idx.size + 1)).astype(np.int16)
+                child = G.make(rng, kind="NP2.4", sites=sub, encoding=enc, ns=40, raw=rawc, aimax=aimax, maxint=maxint,
+                               extra={"NP2.4_shank": int(s_), "nSavedChans": idx.size + 1, "snsApLfSy": f"{idx.size},0,1"})
+                bc = G.write(child, d / f"shank{s_}")
+                for sort_ in (True, False):
+                    lab = f"NP2.4 per-shank file of shank {s_} (probe sites on shanks {keep_sh}, {enc} map) sort={sort_}"
+                    with spikeglx.Reader(bc, sort=sort_) as src:
+                        o = idx[np.lexsort((-par.col_out[idx], par.row[idx]))] if sort_ else idx       # parent sites in the order of the returned columns
+                        pos = np.searchsorted(idx, o)                                               # their columns in the shank file
+                        exp = rawc[:, pos].astype(np.float64) * par.s2v[o][None, :]
+                        got = src[:, :idx.size]
+                        res.check(got.shape == exp.shape and np.allclose(got, exp, rtol=RTOL, atol=0), "shank-file:value", f"{lab}: values are not raw x volts-per-bit of the columns the geometry names",
+                                  counter="shank_files_read")
+                        g_ = src.geometry
+                        okg = all(np.array_equal(np.asarray(g_[k_]), getattr(par, kk_)[o]) for k_, kk_ in (("x", "x"), ("y", "y"), ("shank", "shank"), ("row", "row")))
+                        res.check(okg, "shank-file:geometry", f"{lab}: geometry does not describe the electrodes of shank {s_} in the order of the returned columns "
+                                  f"(shanks named {np.unique(g_['shank']).tolist()})")
+        except Exception as e:
+            res.exception("shank-file:exception", e, f"{label0} per-shank files")
     res.sig = f"{kind}/{enc}/{mode}/{n}/{sort}/{cbin}"
     res.nontrivial = bool(nontrivial)
     return res
